@@ -351,6 +351,9 @@ def dispatch(c):
         return interp_field_case(c)
     if k == "diffrax_seq":
         return diffrax_seq_case(c)
+    if k == "population_backend":
+        from checks import c16 as _c16
+        return _c16.differential_case(c)
     if k == "inputs_backend_seq":
         return backend_seq_case(c)
     if k == "smooth_scipy":
@@ -462,6 +465,12 @@ def families(tier, seed):
         nd["over"]["op/tau"] = nd["over"].get("op/tau", 2.0) * 1.7
     out.append(dict(tag="diffrax-two-runs/jax", features=dict(backend="jax", solver="diffrax"), kind="diffrax_seq", target="p1/op/u", T=1.0, dt=0.05,
                     dts=0.1, items=[(three, smooth), (three_b, [-x for x in smooth])]))
+    # population circuits (matrix, scalar-weight and coupling-edge Connectivity: matvec / vsum / wsum / broadcast helpers of each backend's
+    # registry) on JAX / Torch against the explicit node-and-edge network run with the same settings (cases shared with C16)
+    from checks import c16 as _c16
+    for c_ in _c16.families("quick", seed):
+        if c_.get("kind") == "differential" and c_["features"].get("backend"):
+            out.append(dict(c_, kind="population_backend", tag="population/" + c_["tag"]))
     rough = [round(float(x), 4) for x in np.random.default_rng(seed + 7).uniform(-1, 1, size=20)]
     for b in ("torch", "jax", "fortran"):
         out.append(dict(tag=f"two-runs-with-inputs/{b}/euler", features=dict(backend=b, solver="euler", second_run=True), kind="inputs_backend_seq", target="p1/op/u",
